@@ -118,8 +118,10 @@ def valgrind_batch(exe, runner, cases, d, tag, flags):
                     rec['input'] = ""
                 f.write(json.dumps(rec, separators=(',', ':')) + "\n")
         sc = os.path.join(d, "%s.vgscratch" % tag); os.makedirs(sc, exist_ok=True)
-        p = vlib.sh(["valgrind", "--quiet", "--error-exitcode=9", "--log-file=" + lf, "--track-origins=no", exe, cf, of, sc, "0", "600", flags], timeout=7200)
+        p = vlib.sh(["valgrind", "--quiet", "--error-exitcode=9", "--log-file=" + lf, "--track-origins=no", exe, cf, of, sc, "0", "120", flags], timeout=7200)
         log = open(lf).read() if os.path.exists(lf) else ""
+        if p.returncode == 3:
+            return False, log                  # a CPU-budget timeout under valgrind: hangs are the sanitizer run's business
         return p.returncode == 9 or "uninitialised" in log or "Invalid read" in log or "Invalid write" in log, log
 
     def bisect(batch, sub):
@@ -153,7 +155,10 @@ def exe_sample(tool, cases, d, ext, tag):
         try:
             p = subprocess.run([tool, src, "-o", outp], cwd=wd, stdin=subprocess.DEVNULL, stdout=subprocess.PIPE, stderr=subprocess.PIPE, timeout=60)
         except subprocess.TimeoutExpired:
-            bad.append((c, "did not terminate within 60 s")); continue
+            bad.append((c, "did not terminate within 60 s"))
+            if sum(1 for _, w in bad if w.startswith("did not terminate")) >= 3:
+                break                          # enough evidence of a hang; do not wait a minute for every further input
+            continue
         wrote = os.path.exists(outp)
         if p.returncode == 0 and wrote and not p.stderr:
             continue
